@@ -142,15 +142,29 @@ def r19_config_invariance(facts_by_cfg, run_rules):
                         if x.get("k") == "VarRef" and x["v"] in env:
                             exprs.append(env[x["v"]])
                     for ex in exprs:
-                        for x in walk(ex):
-                            t = x.get("ty")
-                            if t in (fl, "&" + fl, "&&" + fl) and x.get("k") not in ("Literal",):
-                                bad = x
-                            if x.get("k") == "Closure":
-                                cb = facts.body(x["closure"])
-                                for y in walk(facts.root(cb)) if cb else []:
-                                    if y.get("ty") in (fl, "&" + fl) and y.get("k") != "Literal":
-                                        bad = y
+                        todo = [ex]
+                        seen_c = set()
+                        while todo:
+                            cur = todo.pop()
+                            for x in walk(cur):
+                                t = x.get("ty")
+                                is_float = t in (fl, "&" + fl, "&&" + fl)
+                                # a comparison of two inputs is the same in both builds; what depends on the width is
+                                # *computed* floating point (arithmetic, library functions) and width-specific constants
+                                if is_float and x.get("k") in ("Binary", "AssignOp", "Cast"):
+                                    bad = x
+                                if is_float and x.get("k") == "Call" and not (callee(x) or "").startswith("core::ops::deref::") \
+                                        and (callee(x) or "") not in ("core::clone::Clone::clone", "core::ops::index::Index::index",
+                                                                     "core::option::Option::<T>::unwrap", "core::iter::traits::iterator::Iterator::next"):
+                                    bad = x
+                                if x.get("k") == "NamedConst" and ("::f64::" in x.get("def", "") or "::f32::" in x.get("def", "")
+                                                                  or x.get("ty") in (fl,)):
+                                    bad = x
+                                if x.get("k") == "Closure" and x["closure"] not in seen_c:
+                                    seen_c.add(x["closure"])
+                                    cb = facts.body(x["closure"])
+                                    if cb:
+                                        todo.append(facts.root(cb))
                     inst = "assert:%s:%s#%d" % (cfg, norm(b["def"]), n["sp"][0] if False else 0)
                     if bad is not None:
                         c.bad("assert:%s:%s" % (cfg, norm(b["def"])), F.loc(b, n),
